@@ -106,6 +106,7 @@ def run_case(case):
     seq = W.seq
     cd = seqimpl.Coder(case)
     touts = []
+    texc = {}
     with warnings.catch_warnings():
         warnings.simplefilter("ignore")
         for i, op in enumerate(case["ops"]):
@@ -114,19 +115,55 @@ def run_case(case):
                 touts.append(0)
             except Exception as e:  # noqa: BLE001
                 touts.append(err_code(e))
+                texc[i] = e
         t0 = tmpl_observe(W)
         param_ops = [i for i, op in enumerate(case["ops"]) if _op_has_ref(op)]
         first_param = min(param_ops) if param_ops else len(case["ops"])
         failed_live = any(touts[i] != 0 for i in range(first_param))
         otable: dict = {}
         builds = []
+        probed = False
+        persist: dict = {}
+        # ---------------- MappableRegister.find_indices, the source of index values
+        finds = []
+        if case.get("mappable"):
+            dec = case["mappable"]["declared"]
+            for ids in case.get("find") or []:
+                want = [dec.index(x) for x in ids] if set(ids) <= set(dec) else None
+                try:
+                    got = [int(j) for j in W.reg.find_indices(ids)]
+                    finds.append([0, got])
+                    if want is None:
+                        bad("find-indices:accepts-undeclared-id", f"find_indices({ids}) = {got}")
+                    elif got != want:
+                        bad("find-indices:wrong-positions", f"find_indices({ids}) = {got}, declared order gives {want}")
+                except Exception as e:  # noqa: BLE001
+                    finds.append([err_code(e), []])
+                    if want is not None:
+                        bad("find-indices:raises-on-declared-ids",
+                            f"find_indices({ids}) raised {type(e).__name__}: {e}; declared ids are {dec}")
         for bi, b in enumerate(case["builds"]):
             env = {n: v for n, v in b["env"]}
             qubits = {q: t for q, t in b["qubits"]} if b["qubits"] is not None else None
             n_created = len(W.created)
             built, out, origin, exc = None, 0, "", None
+            # array variables are passed as ONE numpy array per variable that is
+            # updated in place between builds (what an optimisation loop does)
+            env_call = dict(env)
+            for vd in case["vars"]:
+                n, v = vd["name"], env.get(vd["name"])
+                if vd["size"] is None or not isinstance(v, list) or not v:
+                    continue
+                ty = int if vd["dtype"] == "int" else float
+                if not all(type(x) is ty for x in v):
+                    continue
+                if n in persist and persist[n].shape == (len(v),):
+                    persist[n][...] = v
+                else:
+                    persist[n] = np.array(v, dtype=ty)
+                env_call[n] = persist[n]
             try:
-                built = seq.build(qubits=qubits, **env)
+                built = seq.build(qubits=qubits, **env_call)
             except Exception as e:  # noqa: BLE001
                 out, origin, exc = err_code(e), classify_build_failure(e), e
                 built = W.created[-1] if len(W.created) > n_created else None
@@ -170,6 +207,16 @@ def run_case(case):
 
             direct, dfail = _direct(W, case, touts, qubits, user, env)
             obs["direct_ok"] = direct is not None
+            if not probed and (direct is not None or (dfail is not None and dfail[0] in ("call", "eval"))):
+                # a program the direct construction accepts is a valid template:
+                # calls the PARAMETRIZED template refused are tried directly
+                probed = True
+                for i, what in _probe_refused(W, case, touts, texc, first_param, qubits, user, env):
+                    bad(("template-raises" + what[0]) if what[0] else
+                        f"template-raises:{case['ops'][i]['op']}:{type(texc[i]).__name__}",
+                        f"call #{i} {case['ops'][i]['op']} raised {type(texc[i]).__name__}: {texc[i]} when the "
+                        f"parametrized template was written, but is accepted when issued directly with the values",
+                        dict(op=i))
             if direct is not None:
                 if exc is not None:
                     sig = f"build-raises:{origin}:{type(exc).__name__}"
@@ -262,7 +309,8 @@ def run_case(case):
                         bad("template-altered:continued-use:build-differs",
                             "building again gives another sequence than building the twin")
             ext_info = dict(outcomes=o1, twin=o2)
-    run = dict(touts=touts, tmpl=t0, builds=builds, otable=otable, world=W, param_ops=param_ops, ext=ext_info)
+    run = dict(touts=touts, tmpl=t0, builds=builds, otable=otable, world=W, param_ops=param_ops, ext=ext_info,
+               finds=finds)
     return run, viols
 
 
@@ -330,6 +378,77 @@ def _direct(W: World, case, touts, qubits, user, env):
         except Exception as e:  # noqa: BLE001
             return None, ("call", e)
     return d, None
+
+
+def _refs_foreign(case, x):
+    foreign = {v["name"] for v in case["vars"] if v.get("foreign")}
+    if not foreign:
+        return False
+
+    def node_foreign(nid, seen=()):
+        n = case["heap"][nid]
+        if n["k"] in ("var", "item"):
+            return n.get("name", n.get("var")) in foreign
+        return any(walk(a) for a in n["args"])
+
+    def walk(y):
+        if is_ref(y):
+            return node_foreign(y["r"])
+        if isinstance(y, dict):
+            return any(walk(v) for v in y.values())
+        if isinstance(y, list):
+            return any(walk(v) for v in y)
+        return False
+
+    return walk(x)
+
+
+def _probe_refused(W: World, case, touts, texc, first_param, qubits, user, env):
+    """calls refused while the template was parametrized that the direct
+    construction (same position, evaluated values) accepts"""
+    cand = []
+    for i, op in enumerate(case["ops"]):
+        if touts[i] == 0 or i < first_param:
+            continue
+        if _refs_foreign(case, op):
+            continue  # a variable of another sequence has no value here
+        if op["op"] == "declare" and _op_has_ref(op.get("initial_target")):
+            continue  # documented: the initial target cannot be parametrized
+        if isinstance(op.get("qubits"), list) and any(is_ref(x) for x in op["qubits"]):
+            continue
+        cand.append(i)
+    if not cand:
+        return []
+    d, _ = _direct(W, case, [1] * len(touts), qubits, user, env)  # just the empty sequence
+    if d is None:
+        return []
+    out = []
+    for i, op in enumerate(case["ops"]):
+        if touts[i] != 0 and i not in cand:
+            continue
+        try:
+            W.exec_op(d, i, op, evalr=user, strict_index=True)
+            if i in cand:
+                after_cfg = any(o["op"] == "config_detmap" and first_param <= j < i
+                                for j, o in enumerate(case["ops"]))
+                tag = ""
+                on_dmm = str(op.get("channel", "")).startswith("dmm_") or any(
+                    str(c).startswith("dmm_") for c in op.get("channels", []))
+                gr_shift = op["op"] in ("phase_shift", "phase_shift_index") and op.get("basis") == "ground-rydberg"
+                if after_cfg and (on_dmm or gr_shift):
+                    # config_detuning_map returns early in a parametrized sequence:
+                    # the DMM channel / its basis do not exist in the template
+                    tag = ":dmm-configured-while-parametrized"
+                q = op.get("qubits")
+                if op["op"] == "target_index" and is_ref(q):
+                    n = case["heap"][q["r"]]
+                    if n["k"] == "item" and isinstance(n["key"], list):
+                        tag = ":variable-item-with-index-list"
+                out.append((i, (tag,)))
+        except Exception:  # noqa: BLE001
+            if touts[i] == 0:
+                break  # cannot follow the program further
+    return out
 
 
 class _EvalError(Exception):
@@ -557,8 +676,14 @@ class Emit:
                   + "; ".join(sv_call(c) for c in t["calls"]) + "];\n    SL ["
                   + "; ".join(sv_call(c) for c in t["tobuild"]) + "];\n    SB "
                   + ("true" if t["building"] else "false") + ";\n    SL [" + ";\n      ".join(exp_b) + "]])")
+        flists, fexp = [], []
+        if case.get("mappable"):
+            for ids, obs in zip(case.get("find") or [], run.get("finds") or []):
+                flists.append("[" + "; ".join(str(W.strs.code(x)) for x in ids) + "]")
+                fexp.append(f"(SL [SZ {obs[0]}; SL [" + "; ".join(f"SZ {j}" for j in obs[1]) + "]])")
+        expect = expect[:-2] + ";\n    SL [" + "; ".join(fexp) + "]])"
         model = (f"(run_case (ofun_tab {ofun}) (opow_tab {opow})\n   {decl}\n   {vs}\n   {defs}\n   {ops}\n   {mp}\n   ["
-                 + ";\n    ".join(bs) + "])")
+                 + ";\n    ".join(bs) + "]\n   [" + "; ".join(flists) + "])")
         return model, expect
 
 
